@@ -28,7 +28,7 @@ fn meta() -> Meta {
     Meta {
         id: "C17",
         level: "exploration",
-        rule: "(a) every specification with <= 3 module names from {a, a::b, a::bc, a-b (a dash is part of the name, not an underscore), B (upper case: module names are case-sensitive), error, info} x 6 filters x optional default, built by LogSpecBuilder and by parse, round-tripped through Display, TOML and (<=1 name) the specfile; (b) every string of <= L tokens over {a, a::b, info, OFF, Warn, 5, bogus, =, ',', /, ' ', x(, e-acute, tab} plus single special code points in three contexts, against a reference parser; distinct_nontrivial = distinct inputs that are either malformed or contain at least two well-formed parts; round trips also with text filters (whatever Display produces parses back); case-mapping look-alikes of level words among the special inputs",
+        rule: "(a) every specification with <= 3 module names from {a, a::b, a::bc, a-b (a dash is part of the name, not an underscore), B (upper case: module names are case-sensitive), error, info} x 6 filters x optional default, built by LogSpecBuilder and by parse, round-tripped through Display, TOML and (<=1 name) the specfile; (b) every string of <= L tokens over {a, a::b, info, OFF, Warn, 5, bogus, =, ',', /, ' ', x(, e-acute, tab} plus single special code points in three contexts, against a reference parser; distinct_nontrivial = distinct inputs that are either malformed or contain at least two well-formed parts; round trips also with text filters (whatever Display produces parses back); case-mapping look-alikes of level words among the special inputs; lists of 12 / 40 / 400 malformed parts with well-formed parts before, between and after them; one specification with 1500 module filters through every round trip",
         assumptions: vec![
             "inputs with an empty module name or naming a module/default twice are only checked for no-panic and Ok/Err stability (outside the quantifier)".into(),
             "regex validity is decided by the regex crate".into(),
@@ -403,6 +403,22 @@ fn special_inputs() -> Vec<String> {
             }
         }
     }
+    // many malformed parts with well-formed ones before, between and after them: every
+    // well-formed part counts, however long the list of complaints gets
+    for n in [12, 40, 400] {
+        for bad in ["x=y=z", "a b", "c=wrong", "é=é=é"] {
+            let mut parts = vec!["a=trace".to_string()];
+            for i in 0..n {
+                parts.push(bad.to_string());
+                if i == n / 2 {
+                    parts.push("a::b=off".to_string());
+                }
+            }
+            parts.push("B=debug".to_string());
+            parts.push("warn".to_string());
+            v.push(parts.join(", "));
+        }
+    }
     v.extend(["", "=", "==", "=info", "a=", "a==", "info,info", "a=info,a=warn", "/", "//", "info/", "/x", "a=info/x(", "DEBUG", "a=TrAcE", " a = info , b ", "a b=info", "a=in fo"].map(String::from));
     // characters whose upper / lower case forms are ASCII letters: not level words
     v.extend(["\u{131}nfo", "o\u{fb00}", "a=\u{131}nfo", "a = o\u{fb00}", "warn, \u{131}nfo", "\u{131}nfo, a=warn", "a=\u{fb00}", "a=\u{17f}ilent", "\u{212a}=info", "\u{130}nfo", "a=\u{130}nfo"].map(String::from));
@@ -421,9 +437,31 @@ fn report(out: &mut Out, res: Result<(bool, bool), (String, String, String)>, ca
     }
 }
 
+fn big_spec() -> RefSpec {
+    let mut modules: Vec<(String, LevelFilter)> = (0..1500).map(|i| (format!("filler_module_number_{i:04}::sub_module"), FILTERS[i % FILTERS.len()])).collect();
+    modules.push(("a".into(), LevelFilter::Trace));
+    modules.push(("a::b".into(), LevelFilter::Off));
+    modules.push(("B".into(), LevelFilter::Debug));
+    RefSpec {
+        default: Some(LevelFilter::Warn),
+        modules,
+        regex: None,
+    }
+}
+
 fn run_unit(tier: &str, unit: usize, out: &mut Out) {
     let nrt = rt_units();
     if unit < nrt {
+        if unit == 0 {
+            // one specification far beyond the size of the others: 1500 module filters, the
+            // names that the probe grid looks at come last in every text form
+            let r = big_spec();
+            out.evaluations += 1;
+            out.count("big_specification_roundtrips", 1);
+            if let Err((clause, _, detail)) = check_roundtrip(&r, true) {
+                out.violation(Violation::new(&clause, "1500-module-filters", detail.chars().take(600).collect::<String>(), json!({"kind": "big-roundtrip"})));
+            }
+        }
         let ns = &name_sets()[unit];
         for r in rt_specs(ns) {
             out.evaluations += 1;
@@ -483,6 +521,12 @@ fn replay(case: &Value) -> Vec<Violation> {
             println!("replay C17: parse({s:?}) -> {:?}", LogSpecification::parse(s).map(|x| x.to_string()));
             println!("reference: {:?}", ref_parse(s));
             report(&mut out, check_parse(s), case.clone(), s);
+        }
+        Some("big-roundtrip") => {
+            println!("replay C17: round trip of the specification with 1500 module filters");
+            if let Err((clause, _, detail)) = check_roundtrip(&big_spec(), true) {
+                out.violation(Violation::new(&clause, "1500-module-filters", detail.chars().take(600).collect::<String>(), case.clone()));
+            }
         }
         _ => {
             let text = case["text"].as_str().unwrap_or("");
